@@ -505,6 +505,9 @@ structure Repaired (cfg : Cfg) : Prop where
   dragForgottenOnClose : cfg.dragForgottenOnClose = true
   destroyClosesChildren : cfg.destroyClosesChildren = true
   spanExactFit : cfg.spanExactFit = true
+  penCopyKeepsSrc : cfg.penCopyKeepsSrc = true
+  snapshotRouting : cfg.snapshotRouting = true
+  mouseKeepsRoot : cfg.mouseKeepsRoot = true
 
 theorem live_or_freed_root {t t' : Tree} (ev : TEv t t') (dead : List Nat) (hd : DeadOk t t' dead) :
     ((∃ r, LiveW t' 0 r) ∨ 0 ∈ dead) ↔ (∃ r, LiveW t 0 r) := by
